@@ -4,6 +4,7 @@ import (
 	"bytes"
 	"fmt"
 	"os"
+	"sort"
 	"strings"
 
 	log "github.com/hashicorp/go-hclog"
@@ -71,7 +72,8 @@ func runC09(rc *RunCtx) {
 	// leader verdicts per command entry
 	leader := map[uint64]bool{}
 	txStart := map[uint64]uint64{}
-	listsRoot := map[uint64]bool{} // transactions that listed the root prefix ""
+	listsRoot := map[uint64]bool{}          // transactions that listed the root prefix ""
+	appliedDuringBegin := map[uint64]bool{} // entries were applied on the leader while the transaction's BeginTx ran
 	var cmds []*hraft.Log
 	chunkEntries := 0
 	pi := 0
@@ -99,6 +101,9 @@ func runC09(rc *RunCtx) {
 			leader[l.Index] = p.err != nil
 			if kind == "tx" {
 				txStart[l.Index] = start
+				if p.txn != nil && p.txn.idxAfterBegin > p.txn.beginIdx {
+					appliedDuringBegin[l.Index] = true
+				}
 				if p.txn != nil {
 					for _, o := range p.txn.ops {
 						if (o.kind == 'l' || o.kind == 'p') && o.key == "" {
@@ -267,14 +272,24 @@ nextReplica:
 				continue
 			}
 			if r.verdicts[l.Index] != leader[l.Index] {
-				sig := map[string]any{"restart_or_snapshot_inside_txn_window": inWindow(r, l.Index), "leader_said_conflict": leader[l.Index]}
+				sig := map[string]any{"restart_or_snapshot_inside_txn_window": inWindow(r, l.Index), "leader_said_conflict": leader[l.Index], "applied_on_leader_during_begin": appliedDuringBegin[l.Index]}
 				if listsRoot[l.Index] && (r.chunkLater[l.Index] || chunkEntries > 0) {
 					// the transaction listed the root prefix and the log holds chunked
 					// values: chunk storage shares the key space (F22)
 					sig["root_listing_and_chunk_storage"] = true
 				}
-				msg := fmt.Sprintf("entry %d: leader told the client conflict=%v, %s reached conflict=%v (transaction start index %d); leader history: %v",
-					l.Index, leader[l.Index], describe(r), r.verdicts[l.Index], txStart[l.Index], tail(rr.Hist, 30))
+				var logDesc []string
+				for _, x := range cmds {
+					k, w, _, st := raft.VerifLogKind(x)
+					var ks []string
+					for key := range w {
+						ks = append(ks, key)
+					}
+					sort.Strings(ks)
+					logDesc = append(logDesc, fmt.Sprintf("%d:%s%v@%d", x.Index, k, ks, st))
+				}
+				msg := fmt.Sprintf("entry %d: leader told the client conflict=%v, %s reached conflict=%v (transaction start index %d); log: %v; leader history: %v",
+					l.Index, leader[l.Index], describe(r), r.verdicts[l.Index], txStart[l.Index], logDesc, tail(rr.Hist, 30))
 				if inWindow(r, l.Index) {
 					// does not end the run: the other replicas are still compared
 					s.ViolateSoft("C09", "replica-verdict-differs-from-leader", sig, "%s", msg)
